@@ -59,7 +59,7 @@ TRUSTED_EXTRA = ["adapters of harness/props/c08.py, c13.py, c06.py reused for sn
 
 GAMES = ["osu", "qua", "sm", "bms", "o2j"]
 SV_GAMES = ["osu", "qua"]
-HOWS = ["construct", "append", "concat", "revsort", "iloc"]
+HOWS = ["construct", "append", "concat", "revsort", "iloc", "dfconcat"]
 # row orders reached through ordinary list histories: "h:<base>[+<post>]*" (see build_history)
 H_BASES = ["sorted_concat", "filter_reappend", "after_before", "reverse_slice", "rotate", "sorted_items", "inplace",
            "resorted_concat"]
@@ -145,6 +145,14 @@ def build_list(game, kind, rows, how=None, pseed=0):
         k = (pseed % len(pit)) if len(pit) > 1 else 0
         a, b = Cls(pit[:k]), Cls(pit[k:])
         return a.append(b)
+    if how == "dfconcat":
+        # two lists put together as frames, the way client code does it: the row labels of the pieces are KEPT
+        # (0..k-1, 0..n-k-1), so labels repeat - the rows and their order are what `construct` gives
+        import pandas as pd
+        k = (pseed % len(pit)) if len(pit) > 1 else 0
+        if k == 0:
+            return Cls(pit)
+        return Cls(pd.concat([Cls(pit[:k]).df, Cls(pit[k:]).df]))
     if how == "revsort":
         return Cls(items).sorted(reverse=True)
     if how == "iloc":
